@@ -27,8 +27,9 @@ RESERVED_LOOKING_NAMES = ["partial", "deterministic_choice", "choose_experiment_
                           "recompile", "run_experiment", "_recompile_lock", "_checksum", "kwargs", "self", "code_holder", "fn_name"]
 
 STR_VALUES = ["a", "b", "c", "xyz", "", "0", "42", "u-1001", "josé", "日本", "A" * 300,
-              "it's", "q\"q", "back\\slash", "new\nline", "nul\x00byte", " ", "1e5", "inf"]
-INT_VALUES = [0, 1, -1, 2, 3, 4, 5, 6, 7, 10, 17, 18, 19, 100, -100, 2 ** 31, 2 ** 53 + 1, 2 ** 64 + 3, -(2 ** 63)]
+              "it's", "q\"q", "back\\slash", "new\nline", "nul\x00byte", " ", "1e5", "inf",
+              "a\x00", "a ", "jos\u00e9", "jose\u0301", "0.3", "9007199254740992", "B" * 70000]
+INT_VALUES = [0, 1, -1, 2, 3, 4, 5, 6, 7, 10, 17, 18, 19, 100, -100, 2 ** 31, 2 ** 53, 2 ** 53 + 1, 2 ** 64 + 3, -(2 ** 63), 10 ** 16]
 # an int too long for int<->str conversion under the interpreter's default limit (4300 digits); written as a marker so that
 # scenarios stay JSON-serialisable, expanded by `expand_values` right before the call
 HUGE_INT_MARKER = {"$pow10": 5000}
@@ -43,7 +44,8 @@ def expand_values(fields):
     if isinstance(fields, list):
         return [expand_values(v) for v in fields]
     return fields
-FLOAT_VALUES = [0.0, -0.0, 0.5, 1.5, -2.25, 1e300, 1e-9, float("inf"), float("-inf"), float("nan"), 18.0]
+FLOAT_VALUES = [0.0, -0.0, 0.5, 1.5, -2.25, 1e300, 1e-9, float("inf"), float("-inf"), float("nan"), 18.0,
+                0.3, 0.1 + 0.2, 9007199254740992.0, 9007199254740993.0, 1e16, 123456789.123]
 OTHER_VALUES = [True, False, None]
 
 COMPARE_OPS = ["==", "!=", ">", "<", ">=", "<=", "in", "not in"]
@@ -126,13 +128,13 @@ class _Builder:
             return [rng.choice(["0.5", "0.25", "1.5", "3.4", "0.001", "10.0"])]
         if r < 0.9:
             return ["0"]
-        return [rng.choice(["0.0", "7", "1000000"])]
+        return [rng.choice(["0.0", "7", "1000000", "0.000000001", "123456789.123", "1000000000"])]
 
     def return_stmt(self):
         rng = self.rng
         self.branch += 1
         b = self.branch
-        n = rng.choice([1, 1, 2, 2, 2, 3, 3, 4, 5, 6, 6, 8, 9, 12, 20])
+        n = rng.choice([1, 1, 2, 2, 2, 3, 3, 4, 5, 6, 6, 8, 9, 12, 20, 20, 33, 64])
         toks = ["return"]
         numeric = rng.random() < 0.08
         for g in range(n):
@@ -144,7 +146,10 @@ class _Builder:
                 lab = str(base) if g % 2 == 0 else str(base) + ".5"
                 toks.append(lab)
             else:
-                toks.append(_quote(rng, f"{self.tid}.{b}.{g}"))
+                lab = f"{self.tid}.{b}.{g}"
+                if rng.random() < 0.01:
+                    lab += "." + "L" * 300          # a very long label
+                toks.append(_quote(rng, lab))
             toks.append("weighted")
             toks += self.weight()
         if n >= 3 and not numeric and rng.random() < 0.1:
@@ -219,7 +224,7 @@ class _Builder:
         if depth <= 0 or rng.random() < 0.35 or not self.fields_pool or self.p.n_returns >= self.opts.get("max_returns", 16):
             return self.return_stmt()
         toks = ["if"] + self.pred(2) + ["{"] + self.conditional(depth - 1) + ["}"]
-        n_elif = rng.choice([0, 0, 1, 1, 2, 3, 4])
+        n_elif = rng.choice([0, 0, 1, 1, 2, 3, 4, 4, 7, 10])
         for _ in range(n_elif):
             if self.p.n_returns >= self.opts.get("max_returns", 16):
                 break
@@ -237,6 +242,10 @@ class _Builder:
             ids.insert(0, rng.choice(KEYWORD_PREFIX_IDS))
         lo, hi = o.get("splitters", (0, 4))
         nspl = rng.randint(lo, hi)
+        if hi >= 3 and rng.random() < 0.03:
+            nspl = rng.choice([5, 6, 8])             # more splitter fields than usual
+        if rng.random() < 0.03:
+            ids.insert(0, "very_long_identifier_" + "x" * 60)
         if nspl >= 2 and rng.random() < o.get("p_case_pair", 0.06):
             # two field names that differ only in letter case
             a, b = rng.choice(CASE_PAIRS)
@@ -259,7 +268,7 @@ class _Builder:
                 if i:
                     toks.append(",")
                 toks.append(s)
-        depth = rng.choice(o.get("depths", [0, 1, 1, 2, 2, 3])) if self.fields_pool else 0
+        depth = rng.choice(o.get("depths", [0, 1, 1, 2, 2, 3, 3, 5])) if self.fields_pool else 0
         toks += self.conditional(depth)
         toks.append("}")
         p.tokens = toks
